@@ -31,7 +31,8 @@ META = {
 }
 RESULTS = ("auto/ragged", "cross/ragged", "auto/equalK", "cross/equalK", "auto/single", "cross/single", "cross/LminN", "auto/LminN",
            "auto/singlefres", "cross/singlefres", "cross/delayed")
-BIG = ("auto/manybins", "cross/manybins")   # relation table only (1600 bins)
+BIG = ("auto/manybins", "cross/manybins",    # relation table only (1600 bins)
+       "auto/tinyfs", "cross/tinyfs", "cross/hugefs")   # relation table, interpolation and export in nano-hertz / mega-hertz units
 
 
 def make_raw(kind, seed=0):
@@ -51,6 +52,10 @@ def make_raw(kind, seed=0):
         kw.update(Lmin=N)
     if shape == "delayed":
         kw.update(Lmin=64, Jdes=40)
+    if shape == "tinyfs":
+        fs = 3e-8
+    if shape == "hugefs":
+        fs = 4e7
     if shape == "manybins":
         N = 4096
         x, y = ana.data_for(mode if mode == "auto" else "cross", N, "id1", "id3", seed)
